@@ -126,6 +126,44 @@ def tlc(spec_files, module, cfg, work, workers=None, extra=None, timeout=1800, j
     return r
 
 
+def tlc_replay_each(spec_files, module, cfg, traces, work, timeout=600, procs=None):
+    """Action-reuse trace validation, one TLC run per trace file (so that one rejected trace does not hide the others).
+    cfg must read the trace from "trace.ndjson".  Returns a list of dict(trace, accepted, invariant, rejected_at, line, out)."""
+    from concurrent.futures import ThreadPoolExecutor
+
+    def one(path):
+        d = tempfile.mkdtemp(prefix=module + "-", dir=work)
+        for f in spec_files:
+            shutil.copy(f, d)
+        shutil.copy(path, os.path.join(d, "trace.ndjson"))
+        open(os.path.join(d, module + ".cfg"), "w").write(cfg)
+        cmd = ["java", "-XX:+UseSerialGC", "-Xss256m", "-Xmx1g", "-cp", TLC_JAR_CP, "tlc2.TLC", "-workers", "1", "-metadir", os.path.join(d, "meta"),
+               "-config", module + ".cfg", module + ".tla"]
+        try:
+            p = subprocess.run(cmd, cwd=d, stdout=subprocess.PIPE, stderr=subprocess.STDOUT, text=True, errors="replace", timeout=timeout)
+        except subprocess.TimeoutExpired:
+            raise HarnessError("TLC timeout after %ss replaying %s" % (timeout, path))
+        out = p.stdout
+        r = {"trace": path, "accepted": "No error has been found" in out, "invariant": None, "rejected_at": None, "line": None, "out": out[-2500:]}
+        m = re.search(r"Invariant (\S+) is violated", out)
+        if m:
+            r["invariant"] = m.group(1)
+            ls = re.findall(r"/\\ l = (\d+)", out)
+            r["line"] = int(ls[-1]) - 1 if ls else None
+        m = re.search(r'"TRACE-NOT-CONSUMED",\s*(\d+),\s*(\d+)', out)
+        if m:
+            r["rejected_at"] = int(m.group(1)) + 1
+        if not r["accepted"] and not r["invariant"] and not r["rejected_at"]:
+            raise HarnessError("TLC did not replay %s:\n%s" % (path, out[-2500:]))
+        m = re.search(r"(\d+) states generated, (\d+) distinct states found", out)
+        r["distinct"] = int(m.group(2)) if m else 0
+        shutil.rmtree(d, ignore_errors=True)
+        return r
+
+    with ThreadPoolExecutor(max_workers=procs or NCPU) as ex:
+        return list(ex.map(one, traces))
+
+
 def tlc_ok(r, what):
     """A design-level TLC run must finish without error; otherwise it is a harness/spec failure."""
     if r["invariant_violated"] or r["property_violated"] or r["errors"] or not r["finished"] or r["distinct"] == 0:
